@@ -12,7 +12,7 @@
 (C) Coq obligations: Properties/Properties_C13.v.
 """
 import os, json, re, collections, concurrent.futures
-import vcheck, conc_check
+import vcheck, conc_check, conc_windows2
 
 HARNESS = os.path.join(vcheck.VERIF, "harness", "C13", "main.cpp")
 SHARDS = [0, 1, 2, 3, 4, 5, 6, 10, 11, 12, 13, 14, 15, 16, 20, 21, 22, 23, 24, 25, 26]
@@ -385,6 +385,66 @@ def gen_step_cases(ctx, rng, n, tag, variants=(0, 3)):
     return cases
 
 
+# --------------------------------------------------------------------------------------------------
+# model-guided window schedules (lib/conc_windows2.py) for the three step models: a set-up thread fills the list, then the
+# participants collide on the same key / the same predecessor; the victim is stalled right before each of its CAS / lock
+# acquisitions (and, load-load windows, before every other access), the actor runs exactly through one of its own writes
+# (positions measured on the extracted model in that very state) or through its whole program, the victim gets r more
+# steps, a third thread runs before / after / in between.
+#   (name, set-up operations of thread 0, programs of the participants)
+WINDOW_TEMPLATES = [
+    ("ins_ins_same", [[1, 0, 0, 0]], [[[1, 1, 0, 0]], [[2, 1, 0, 0]], [[9, 1, 0, 0]]]),
+    ("ins_ins_adjacent", [[1, 0, 0, 0], [1, 3, 0, 0]], [[[1, 1, 0, 0]], [[1, 2, 0, 0]], [[3, 1, 1, 0]]]),
+    ("ins_vs_erase_pred", [[1, 0, 0, 0], [1, 2, 0, 0]], [[[4, 0, 0, 0]], [[1, 1, 0, 0]], [[10, 0, 0, 0]]]),
+    ("erase_erase_ins", [[1, 1, 0, 0]], [[[4, 1, 0, 0]], [[7, 1, 0, 0]], [[1, 1, 0, 0]]]),
+    ("help_unlink", [[1, 0, 0, 0], [1, 1, 0, 0], [1, 2, 0, 0]], [[[4, 1, 0, 0]], [[9, 2, 0, 0]], [[5, 0, 0, 0]]]),
+    ("update_vs_erase", [[1, 1, 0, 0]], [[[3, 1, 1, 0]], [[4, 1, 0, 0]], [[3, 1, 0, 0]]]),
+    ("erase_then_ins", [[1, 1, 0, 0], [1, 2, 0, 0]], [[[4, 1, 0, 0], [1, 1, 0, 0]], [[4, 2, 0, 0]], [[8, 1, 0, 0]]]),
+    ("ins_then_erase", [[1, 2, 0, 0]], [[[1, 1, 0, 0], [4, 1, 0, 0]], [[4, 2, 0, 0], [1, 2, 0, 0]]]),
+    ("neighbours", [[1, 1, 0, 0], [1, 2, 0, 0]], [[[5, 1, 0, 0]], [[5, 2, 0, 0]], [[1, 0, 0, 0]]]),
+    ("unlink_own", [[1, 3, 0, 0]], [[[1, 1, 0, 0], [6, 1, 0, 0]], [[4, 1, 0, 0]], [[2, 1, 0, 0]]]),
+]
+# IterableList: nodes whose data pointer is null are re-used by link_data (the set-up leaves such nodes behind)
+WINDOW_TEMPLATES_ITER = [
+    ("it_empty_pred", [[1, 1, 0, 0], [1, 3, 0, 0], [4, 1, 0, 0]], [[[1, 0, 0, 0]], [[1, 2, 0, 0]], [[1, 1, 0, 0]]]),
+    ("it_empty_two", [[1, 0, 0, 0], [1, 3, 0, 0], [1, 1, 0, 0], [4, 1, 0, 0], [4, 0, 0, 0]], [[[1, 0, 0, 0]], [[1, 1, 0, 0], [4, 1, 0, 0]], [[1, 2, 0, 0]]]),
+    ("it_reuse_race", [[1, 2, 0, 0], [4, 2, 0, 0]], [[[1, 1, 0, 0]], [[1, 3, 0, 0]], [[4, 1, 0, 0]]]),
+    ("it_fill_and_empty", [[1, 1, 0, 0], [1, 3, 0, 0], [4, 1, 0, 0]], [[[1, 2, 0, 0]], [[1, 1, 0, 0], [4, 1, 0, 0]], [[3, 0, 1, 0]]]),
+]
+WINDOW_QUICK_PER_MODEL = 420
+WINDOW_QUICK_CANDIDATES = 3000          # candidates run on the model, of which WINDOW_QUICK_PER_MODEL are selected for the real code
+WINDOW_THOROUGH_PER_MODEL = 12000        # beyond that: stratified subsample of the enumeration
+
+
+def gen_window_cases(ctx, spec, model, rng):
+    """-> (cases, generator info).  thorough: the full enumeration for both variants of the model; quick: one seed-chosen
+    variant, reduced r sweep, a stratified seed-chosen subsample of WINDOW_QUICK_PER_MODEL schedules"""
+    tpls = WINDOW_TEMPLATES + (WINDOW_TEMPLATES_ITER if spec["name"] == "iterable" else [])
+    vids = list(spec["variants"])
+    if not ctx.thorough():
+        vids = [vids[(ctx.seed + len(spec["name"])) % len(vids)]]
+    templates = []
+    for vid in vids:
+        for name, setup, parts in tpls:
+            templates.append({"name": "%s/%d" % (name, vid), "cfg": [vid, 1, 20000], "threads": [setup] + parts, "setup": 1})
+    th = ctx.thorough()
+    cases, info = conc_windows2.expand(model, os.path.join(ctx.work, "wprobe_" + spec["name"]), templates, "w%s_" % spec["name"][:2],
+                                       r_values=tuple(range(0, 13)) if th else (0, 1, 2, 3, 5, 8, 12), read_points=True,
+                                       staged=True, max_ws=4 if th else 2, staged_max_wa=4 if th else 3,
+                                       staged_r_values=(0, 1, 2, 3, 5, 8) if th else (0, 1, 3, 6), lazy=True)
+    info["enumerated"] = len(cases)
+    if th:
+        cases = conc_windows2.stratified(rng, cases, WINDOW_THOROUGH_PER_MODEL)
+    else:
+        # model-guided selection: every distinct path a thread takes in some candidate is covered by a schedule that is run
+        cases = conc_windows2.stratified(rng, cases, WINDOW_QUICK_CANDIDATES)
+        paths = conc_windows2.model_paths(model, os.path.join(ctx.work, "wprobe_" + spec["name"]), cases, "w" + spec["name"][:2])
+        cases, info["selection"] = conc_windows2.select_by_cover(rng, cases, paths, WINDOW_QUICK_PER_MODEL)
+    cases = conc_windows2.finalize(cases)
+    info["run"] = len(cases)
+    return cases, info
+
+
 def strip_sp(log):
     return {"lines": [l for l in log["lines"] if " ev sp " not in l], "end": log["end"], "extra": log["extra"]}
 
@@ -394,9 +454,22 @@ def exec_step(ctx, exes, spec, model, cases):
     name = spec["name"]
     cf = os.path.join(ctx.work, "step_%s.txt" % name)
     conc_check.write_cases(cf, cases)
+    def impl():
+        if len(cases) <= 4000:
+            return run_shard(ctx, exes[spec["shard"]], cases, "step_impl_" + name)
+        # thorough tier with the full window enumeration: several harness processes side by side
+        nproc = max(2, min(vcheck.NCPU // 3, 6))
+        chunks = [cases[i::nproc] for i in range(nproc)]
+        rc, logs, raw = 0, {}, ""
+        with concurrent.futures.ThreadPoolExecutor(max_workers=nproc) as ex2:
+            for r, lg, rw in ex2.map(lambda j: run_shard(ctx, exes[spec["shard"]], chunks[j], "step_impl_%s_%d" % (name, j)), range(nproc)):
+                logs.update(lg)
+                if r != 0:
+                    rc, raw = r, rw
+        return rc, logs, raw
     with concurrent.futures.ThreadPoolExecutor(max_workers=2) as ex:
-        fm = ex.submit(vcheck.sh, "%s %d < %s" % (model, 20000, cf), 900)
-        fi = ex.submit(run_shard, ctx, exes[spec["shard"]], cases, "step_impl_" + name)
+        fm = ex.submit(vcheck.sh, "%s %d < %s" % (model, 20000, cf), 1800)
+        fi = ex.submit(impl)
         rc1, out1 = fm.result()
         rc2, ilog, raw = fi.result()
     return cases, conc_check.parse_logs(out1), rc2, ilog, raw
@@ -407,7 +480,7 @@ def run_step(ctx, exes, variants, lin, stats, n, corpus, spec=None):
     spec = spec or STEP_MODELS[0]
     name = spec["name"]
     cases, mlog, rc2, ilog, raw = spec["_exec"]
-    diverged = 0; first_div = None; steps = 0
+    diverged = 0; first_div = None; steps = 0; wdiverged = 0
     shapes = set(); contended = set(); helped = set(); kinds = collections.Counter()
     for c in cases:
         m = mlog.get(c["id"]); i = ilog.get(c["id"])
@@ -436,6 +509,7 @@ def run_step(ctx, exes, variants, lin, stats, n, corpus, spec=None):
                 kinds[t[1] + (":fail" if t[1] == "cas" and t[3] == "0" else "")] += 1
         if d is not None:
             diverged += 1
+            wdiverged += 1 if c.get("kind") == "window" else 0
             if first_div is None:
                 first_div = (c, d)
     # the same real executions through the implementation-side monitors (lincheck, quiescent traversal, functors)
@@ -454,7 +528,7 @@ def run_step(ctx, exes, variants, lin, stats, n, corpus, spec=None):
         if not found:
             ctx.violation("step correspondence between %s no longer holds" % spec["what"],
                           {"correspondence": spec["what"], "case": c, "first_divergence": d}, no_input=True)
-    return {"step_cases": len(cases), "step_diverged": diverged, "impl_steps_compared": steps, "distinct_event_logs": len(shapes),
+    return {"step_cases": len(cases), "step_diverged": diverged, "step_diverged_window_schedules": wdiverged, "impl_steps_compared": steps, "distinct_event_logs": len(shapes),
             "distinct_event_logs_with_failed_cas": len(contended),   # lazy list: a thread spinning on a taken node lock "access_histogram": dict(kinds),
             "traces_validated_against_impl": len(cases) - diverged}
 
@@ -687,7 +761,10 @@ def run_iter_targeted(ctx, exes, variants, lin, level, why):
 
 
 def run(ctx):
-    exes = build_shards(ctx, SHARDS)
+    # VERIF_ONLY=step restricts a run to the step-correspondence stage (mutation experiments on the modelled code): only the
+    # three shards of the step-modelled variants are built, stages (A), hp_copy and the IterableList families are skipped
+    only_step = os.environ.get("VERIF_ONLY") == "step" and not ctx.replay
+    exes = build_shards(ctx, sorted(set(sp["shard"] for sp in STEP_MODELS)) if only_step else SHARDS)
     variants = {}; shard_of = {}
     for s, e in exes.items():
         for vid, name in shard_variants(e):
@@ -741,7 +818,7 @@ def run(ctx):
             if c["cfg"][0] in shard_of:
                 corpus.append(c); by_shard[shard_of[c["cfg"][0]]].append(c)
     for vid in sorted(variants):
-        by_shard[shard_of[vid]] += gen_cases(ctx, ctx.rng.fork(), vid, per_variant, "o")
+        by_shard[shard_of[vid]] += gen_cases(ctx, ctx.rng.fork(), vid, 1 if only_step else per_variant, "o")
     nbad = observable(ctx, exes, variants, lin, by_shard, "obs", stats)
     ctx.log("observable: %d variants, %d cases, %d bad" % (len(variants), sum(s["cases"] for s in stats.values()), nbad))
 
@@ -752,8 +829,13 @@ def run(ctx):
     for spec in STEP_MODELS:        # models and cases first (one random stream), then all executions in parallel
         model = conc_check.build_model(ctx, spec["extract"], tag="model_" + spec["name"])
         cases = [c for c in corpus if c["cfg"][0] in spec["variants"] and c["cfg"][1] == 1] + gen_step_cases(ctx, ctx.rng.fork(), nstep, "s" + spec["name"], spec["variants"])
+        spec["_wrng"] = ctx.rng.fork()
         spec["_model"] = model
         prepared.append((spec, model, cases))
+    with concurrent.futures.ThreadPoolExecutor(max_workers=len(prepared)) as ex:       # window schedules: the three models side by side
+        for (sp, mo, cs), (wcases, winfo) in zip(prepared, ex.map(lambda p: gen_window_cases(ctx, p[0], p[1], p[0]["_wrng"]), prepared)):
+            cs += wcases
+            sp["_winfo"] = winfo
     with concurrent.futures.ThreadPoolExecutor(max_workers=len(prepared)) as ex:
         futs = [ex.submit(exec_step, ctx, exes, sp, mo, cs) for sp, mo, cs in prepared]
         for (sp, mo, cs), f in zip(prepared, futs):
@@ -761,6 +843,14 @@ def run(ctx):
     for spec in STEP_MODELS:
         si = run_step(ctx, exes, variants, lin, stats, 6000 if ctx.thorough() else 1500, corpus, spec)
         ctx.log(("step[%s]: " % spec["name"]) + "%(step_cases)d cases, %(step_diverged)d diverged, %(impl_steps_compared)d accesses compared, %(distinct_event_logs_with_failed_cas)d distinct logs with a failed CAS" % si)
+        # what the window schedules reached, counted in the logs of the REAL code
+        ws = conc_windows2.event_stats(spec["_exec"][0], {k: strip_sp(v) for k, v in spec["_exec"][3].items()})
+        ws["generator"] = {k: v for k, v in spec.get("_winfo", {}).items() if k != "per_template"}
+        ws["rule"] = ("victim stalled before each CAS / node-lock acquisition and before every other access, actor runs exactly through one of its "
+                      "writes (measured on the model in that state) or its whole program, victim gets r more steps, third thread before / after / in between; "
+                      "with_retry_path = a thread executed more accesses than in its solo run (retry, helping or spinning path)")
+        si["window_schedules"] = ws
+        ctx.log("step[%s] windows: %d schedules, %d with a failed CAS, %d with a retry/helping path" % (spec["name"], ws["window_cases"], ws["with_failed_cas"], ws["with_retry_path"]))
         stepinfo["step_" + spec["name"]] = si
     stepinfo["traces_validated_against_impl"] = sum(v["traces_validated_against_impl"] for v in stepinfo.values())
     stepinfo["step_cases"] = sum(v["step_cases"] for k, v in stepinfo.items() if isinstance(v, dict))
@@ -787,6 +877,9 @@ def run(ctx):
         "modelled": "cds::intrusive::MichaelList<cds::gc::HP> (search with helping, link_node, unlink_node, insert_at, update_at, erase_at, unlink_at, extract_at, find_at, get_at, HP guard traffic) [theorems]; cds::intrusive::LazyList<cds::gc::HP> (search, node spin locks, validate, link_node, unlink_node, all *_at) [theorems] and cds::intrusive::IterableList<cds::gc::HP> (search, inserting_search, find_prev, link_data, unlink_data, all *_at) [LazyList: theorems lazy_sorted_nodup, lazy_linearizable, lazy_quiescent_count; IterableList: refutation iter_sorted_nodup_refuted]",
     })
     ctx.coverage.update(stepinfo)
+    if only_step:
+        ctx.coverage["restricted_run"] = "VERIF_ONLY=step"
+        return ctx.finish(vcheck.STD_TRUSTED)
     hpinfo = run_hp_copy(ctx)
     ctx.log("hp guard-copy scenario: %(hp_copy_cases)d schedules, %(hp_copy_use_after_dispose)d with a use after dispose" % hpinfo)
     ctx.coverage.update(hpinfo)
